@@ -67,6 +67,11 @@ fn dp(tcx: TyCtxt<'_>, did: DefId) -> String {
     tcx.def_path_str(did)
 }
 
+/// unique, stable-within-a-build identifier of a definition (def_path_str is ambiguous for impl items)
+fn uid(tcx: TyCtxt<'_>, did: DefId) -> String {
+    format!("{}{}", tcx.crate_name(did.krate), tcx.def_path(did).to_string_no_crate_verbose())
+}
+
 fn span_j(tcx: TyCtxt<'_>, sp: Span) -> J {
     let sm = tcx.sess.source_map();
     let cs = sp.source_callsite();
@@ -140,6 +145,7 @@ fn ty_head<'tcx>(tcx: TyCtxt<'tcx>, mut ty: Ty<'tcx>) -> Vec<(&'static str, J)> 
         }
         ty::Closure(did, _) | ty::Coroutine(did, _) | ty::CoroutineClosure(did, _) => {
             o.push(("closure", J::s(dp(tcx, *did))));
+            o.push(("closure_uid", J::s(uid(tcx, *did))));
         }
         ty::Param(p) => o.push(("param", J::s(p.name.to_string()))),
         ty::Dynamic(..) => o.push(("dyn", J::B(true))),
@@ -157,6 +163,7 @@ fn fn_ref<'tcx>(
     args: GenericArgsRef<'tcx>,
 ) -> J {
     let mut o = vec![("def", J::s(dp(tcx, did)))];
+    o.push(("uid", J::s(uid(tcx, did))));
     o.push(("name", J::s(tcx.item_name(did).to_string())));
     if !args.is_empty() {
         o.push(("args", J::A(args.iter().map(|a| J::s(format!("{}", a))).collect())));
@@ -170,10 +177,10 @@ fn fn_ref<'tcx>(
                 }
                 match t.kind() {
                     ty::Closure(d, _) | ty::Coroutine(d, _) | ty::CoroutineClosure(d, _) => {
-                        cl.push(J::A(vec![J::I(i as i128), J::s("closure"), J::s(dp(tcx, *d))]));
+                        cl.push(J::A(vec![J::I(i as i128), J::s("closure"), J::s(dp(tcx, *d)), J::s(uid(tcx, *d))]));
                     }
                     ty::FnDef(d, _) => {
-                        cl.push(J::A(vec![J::I(i as i128), J::s("fn"), J::s(dp(tcx, *d))]));
+                        cl.push(J::A(vec![J::I(i as i128), J::s("fn"), J::s(dp(tcx, *d)), J::s(uid(tcx, *d))]));
                     }
                     _ => {}
                 }
@@ -221,6 +228,7 @@ fn fn_ref<'tcx>(
         let rd = inst.def_id();
         if rd != did {
             o.push(("resolved", J::s(dp(tcx, rd))));
+            o.push(("resolved_uid", J::s(uid(tcx, rd))));
         }
         match inst.def {
             ty::InstanceKind::Item(_) => {}
@@ -469,6 +477,7 @@ impl<'a, 'tcx> BodyCx<'a, 'tcx> {
                     | AggregateKind::CoroutineClosure(did, _) => {
                         o.push(("agg", J::s("closure")));
                         o.push(("closure", J::s(dp(tcx, *did))));
+                        o.push(("closure_uid", J::s(uid(tcx, *did))));
                         if let Some(l) = did.as_local() {
                             o.push((
                                 "fields",
@@ -710,7 +719,7 @@ fn extract<'tcx>(tcx: TyCtxt<'tcx>, crate_name: &str) -> J {
         let did = ldid.to_def_id();
         let kind = tcx.def_kind(did);
         let kind_s = format!("{:?}", kind);
-        let mut o: Vec<(&'static str, J)> = vec![("def", J::s(dp(tcx, did))), ("kind", J::s(kind_s.split([' ', '{', '(']).next().unwrap_or("").to_string()))];
+        let mut o: Vec<(&'static str, J)> = vec![("def", J::s(dp(tcx, did))), ("uid", J::s(uid(tcx, did))), ("kind", J::s(kind_s.split([' ', '{', '(']).next().unwrap_or("").to_string()))];
         o.push(("span", span_j(tcx, tcx.def_span(did))));
         let body: Option<&Body<'tcx>> = match kind {
             DefKind::Fn | DefKind::AssocFn | DefKind::Closure => {
@@ -741,6 +750,7 @@ fn extract<'tcx>(tcx: TyCtxt<'tcx>, crate_name: &str) -> J {
         }
         if matches!(kind, DefKind::Closure) {
             o.push(("parent", J::s(dp(tcx, tcx.typeck_root_def_id(did)))));
+            o.push(("parent_uid", J::s(uid(tcx, tcx.typeck_root_def_id(did)))));
             o.push(("direct_parent", J::s(dp(tcx, tcx.parent(did)))));
             if tcx.is_coroutine(did) {
                 o.push(("coroutine", J::B(true)));
@@ -846,7 +856,7 @@ fn extract<'tcx>(tcx: TyCtxt<'tcx>, crate_name: &str) -> J {
                 o.extend(generics_j(tcx, did));
                 let mut items = vec![];
                 for it in tcx.associated_items(did).in_definition_order() {
-                    let mut io = vec![("name", J::s(it.opt_name().map(|n| n.to_string()).unwrap_or_else(|| "<rpitit>".to_string()))), ("def", J::s(dp(tcx, it.def_id)))];
+                    let mut io = vec![("name", J::s(it.opt_name().map(|n| n.to_string()).unwrap_or_else(|| "<rpitit>".to_string()))), ("def", J::s(dp(tcx, it.def_id))), ("uid", J::s(uid(tcx, it.def_id)))];
                     match it.kind {
                         ty::AssocKind::Type { .. } => {
                             io.push(("kind", J::s("type")));
